@@ -144,7 +144,11 @@ func (r *ring) removeHost(hostID string) bool {
 				break
 			}
 		}
-		delete(r.hostIPToUUID, h.nodeToNodeAddress().String())
+		// the address may have been taken over by another host (e.g. a node replaced
+		// by one with a new host id on the same address): only drop our own entry
+		if ip := h.nodeToNodeAddress().String(); r.hostIPToUUID[ip] == hostID {
+			delete(r.hostIPToUUID, ip)
+		}
 	}
 	delete(r.hosts, hostID)
 	r.mu.Unlock()
